@@ -56,7 +56,7 @@ def factory(sc):
         base = {k: v for k, v in cfg.items() if k in ("version", "chain", "c_mds", "s_mds")}
         cfg["tickets"] = netsim.obtain_tickets(base)
     kw = {"max_steps": sc.get("max_steps", 300), "horizon": 60.0,
-          "deviations": tuple(sc.get("dev", ("drop", "dup", "delay", "rebind", "late", "spoof")))}
+          "deviations": tuple(sc.get("dev", ("drop", "dup", "delay", "rebind", "late", "spoof", "hold")))}
     return cfg, SCRIPTS[sc["script"]], [SizeMonitor()], kw, goal
 
 
